@@ -103,7 +103,7 @@ theorem reject_sum_index_mismatch (sF sT : Sub) (indices : List Char) (iterm : N
 
 /-- **align_alphabetical**: `expr @ ns` hands `transpose` axes such that the labels of the result are the free
 indices in alphabetical order -/
-theorem align_alphabetical (r : Res) (h : r.indices.Nodup) :
+theorem align_alphabetical (r : Res) :
     (rmatmul r).2.Pairwise (fun a b => a.toNat ≤ b.toNat) ∧ (rmatmul r).2.Perm r.indices ∧
     (alignAxes r.indices (rmatmul r).2).map (fun ax => r.indices.getD ax ' ') = (rmatmul r).2 := by
   simp only [rmatmul]
